@@ -30,6 +30,9 @@ type JApiCore struct {
 	// similarPaths to check the forbidding of "similar" paths.
 	similarPaths map[string]string
 
+	// pathPropertyTypesInProgress holds the user types which the check of a Path property is following right now.
+	pathPropertyTypesInProgress map[string]struct{}
+
 	// macro contains list of all project macros.
 	macro map[string]*directive.Directive
 
